@@ -15,7 +15,7 @@ class CumulativeAggregations(Expr):
     aggregate_operation = None
 
     def _divisions(self):
-        return self.frame._divisions()
+        return self.frame.divisions
 
     @functools.cached_property
     def _meta(self):
@@ -75,7 +75,7 @@ class CumulativeFinalize(Expr):
     _defaults = {"skipna": True}
 
     def _divisions(self):
-        return self.frame._divisions()
+        return self.frame.divisions
 
     @functools.cached_property
     def _meta(self):
